@@ -8,19 +8,37 @@ ID = "C17"
 HMODULE = "H_C17"
 FUNCTIONAL = False
 RULE = ("RTL: random input dicts (non-dict tensor / only 'unconstrained' / only 'increasing' / both; single "
-        "(batch,D) tensors and lists of multi-unit tensors = groups), 1-8 lattices of rank 1-4, slot counts "
+        "(batch,D) tensors and lists of multi-unit tensors = groups), lattices of rank 1-4, slot counts "
         "below / equal / above / multiples of the number of inputs, avoid_intragroup_interaction on/off, random "
-        "seeds; _get_rtl_structure is called on the shape dict and, for a subset, the real layer is built and "
-        "called on labelled tensors with recording lattice stubs (gathered indices per output key). The two "
-        "shuffle permutations are recovered by replaying RandomState(seed).shuffle on index lists and passed "
-        "to the Coq model, whose structure must be identical. Non-trivial = accepted config with >= 2 lattices "
-        "or more slots than inputs.")
+        "seeds; _get_rtl_structure is called on the shape dict and, for every 6th case, the real layer is built and "
+        "called on labelled tensors with recording lattice stubs (gathered indices per output key, both "
+        "separate_outputs modes, both dict insertion orders). The two shuffle permutations are recovered by "
+        "replaying RandomState(seed).shuffle on index lists and passed to the Coq model, whose structure must be "
+        "identical. Random ensemble: set_random_lattice_ensemble on CalibratedLatticeEnsembleConfig (1-9 features, "
+        "feature names given or taken from feature_configs, valid / tight / too few slots / rank > n), every "
+        "np.random.choice value recorded and handed to the model. All-pairs cover: "
+        "construct_prefitting_model_config (2-9 features, rank 2-5 and rejected rank >= n), shuffle replayed. "
+        "Crystals: _get_final_crystal_lattices / set_crystals_lattice_ensemble with _get_torsions_and_laplacians "
+        "replaced by generated dyadic symmetric score matrices (dense, sparse, block, skewed so that the "
+        "num_lattices-1 cap binds, zero-importance feature = D13), 3-6 features, tight / spare / too few slots. "
+        "Implementation-side predicate on every case: exact rank, lattice count, coverage, RTL balance and "
+        "wiring and output routing, no repeats (random), all pairs covered, same seed twice => same result. "
+        "Non-trivial = accepted config with >= 2 lattices (RTL: or more slots than inputs).")
 TRUSTED = ["model: Model/RTLStructure.v, Model/Ensembles.v (hand-written from rtl_layer.py, premade_lib.py)",
            "oracles: np.random.RandomState.shuffle / np.random.shuffle return a permutation; np.random.choice(a) "
            "returns an element of a; np.random.choice(a, size, replace=False) returns size distinct elements of a "
            "(checked on every captured value)"]
 LIMITS = ["the order in which a Python set of ints is iterated (all-pairs cover lattices) is not modelled; "
-          "those lattices are compared as sets"]
+          "those lattices are compared as sets",
+          "guard 'enough slots' (num_lattices*lattice_rank >= number of features): with fewer slots "
+          "_get_final_crystal_lattices silently returns an ensemble that drops features (e.g. n=3, 1 lattice of "
+          "rank 2 -> [[0, 1]]) instead of raising; outside the property's quantifier, model and implementation "
+          "are still compared there",
+          "Crystals: np.argsort(-importance) is not a stable sort, so generated importance scores are pairwise "
+          "distinct; scores are dyadic so that float64 evaluation of every compared score is exact; "
+          "_get_torsions_and_laplacians (prefitting weights -> scores) is replaced by given scores",
+          "known finding D13: _get_final_crystal_lattices raises ValueError (int(round(nan))) when a feature has "
+          "importance 0; the Crystals theorems assume the use allocation succeeded (crystal_uses = Some uses)"]
 
 
 # --------------------------------------------------------------------------
@@ -44,17 +62,25 @@ def gen_rtl(ctx, count, full_every):
   rng = ctx.rng
   out = []
   for k in range(count):
-    form = rng.choice(["tensor", "unc", "inc", "both", "both", "both"])
+    form = rng.choice(["tensor", "list", "unc", "inc", "both", "both", "both", "both"])
     inc = unc = None
-    if form in ("tensor", "unc", "both"):
+    if form in ("tensor", "list", "unc", "both"):
       unc = _gen_value(rng, 0)
     if form in ("inc", "both"):
       inc = _gen_value(rng, 0)
     if form == "tensor":
       unc = ["single", rng.randint(1, 8)]
+    if form == "list":      # a bare list of tensors (no dict): unconstrained groups
+      unc = ["multi", [rng.choice([1, 2, 3]) for _ in range(rng.randint(1, 4))]]
+    full = (k % full_every == 0)
+    if not full and rng.random() < 0.08:
+      # an empty group (batch, 0): takes a group id, contributes no input
+      v = unc if unc is not None else inc
+      if v[0] == "multi" and sum(v[1]) > 0:
+        v[1].insert(rng.randrange(len(v[1]) + 1), 0)
     n = sum(_sizes(inc)) + sum(_sizes(unc))
     rank = rng.choice([1, 2, 2, 3, 3, 4])
-    slot_class = rng.choice(["small", "exact", "plus", "multiple", "many", "many"])
+    slot_class = rng.choice(["small", "exact", "exact", "plus", "plus", "multiple", "multiple", "many", "many", "many"])
     if slot_class == "small":
       num = max(0, (n - 1) // rank - rng.randint(0, 1))
     elif slot_class == "exact":
@@ -64,10 +90,9 @@ def gen_rtl(ctx, count, full_every):
     elif slot_class == "multiple":
       num = -(-(n * rng.randint(2, 3)) // rank)
     else:
-      num = rng.randint(1, 8)
+      num = -(-n // rank) + rng.randint(0, 6)
     num = min(num, 10)
     avoid = rng.random() < 0.8
-    full = (k % full_every == 0)
     if full and num == 0:
       num = 1
     out.append(dict(kind="rtl", form=form, inc=inc, unc=unc, num=num, rank=rank, avoid=avoid,
@@ -187,7 +212,7 @@ def eval_rtl(ctx, d):
   base = max(n, 2)
 
   def make_input(real):
-    if d["form"] == "tensor":
+    if d["form"] in ("tensor", "list"):
       v, _ = _shape_value(d["unc"], real, tf, 0, tf.float64)
       return v
     x = {}
@@ -212,10 +237,20 @@ def eval_rtl(ctx, d):
   fail = None
   layer = make_layer()
   try:
-    if d["full"]:
+    impl = _structure_plain(layer._get_rtl_structure(make_input(False)))
+  except (ValueError, ZeroDivisionError) as e:
+    err = "%s: %s" % (type(e).__name__, str(e)[:120])
+    impl = None
+  if d["full"] and impl is not None:
+    layer = make_layer()
+    try:
       x = make_input(True)
       layer(x)   # real build through Keras (input shapes derived by Keras) and real call
-      impl = _structure_plain(layer._rtl_structure)
+      built = _structure_plain(layer._rtl_structure)
+      if built != impl:
+        fail = "layer built on tensors has structure %r, _get_rtl_structure on the same shapes gave %r" % (
+            built, impl)
+        impl = built
       for key in list(layer._lattice_layers):
         layer._lattice_layers[key] = _Stub(tf, rank, base)
       y = layer(x)
@@ -232,11 +267,9 @@ def eval_rtl(ctx, d):
         n_u = sum(len(ls) for monos, ls in impl if max(monos) == 0)
         groups = [flat[:n_u], flat[n_u:]]
       impl_call = groups
-    else:
-      impl = _structure_plain(layer._get_rtl_structure(make_input(False)))
-  except (ValueError, ZeroDivisionError) as e:
-    err = "%s: %s" % (type(e).__name__, str(e)[:120])
-    impl = None
+    except Exception as e:  # pylint: disable=broad-except
+      fail = fail or "building / calling the RTL layer on an accepted config raised %s: %s" % (
+          type(e).__name__, str(e)[:200])
 
   # oracle values: replay the identically seeded RandomState on index lists
   p1 = p2 = []
@@ -281,17 +314,319 @@ def eval_rtl(ctx, d):
   else:
     slots = "uneven"
   groups = "grouped" if any(s > 1 for s in _sizes(d["inc"]) + _sizes(d["unc"])) else "singletons"
-  klass = "rtl_%s_%s_%s_%s%s" % (d["form"], groups, slots, "full" if d["full"] else "direct",
-                                 "" if d["avoid"] else "_noavoid")
+  swapped = ""
+  if impl is not None and d["avoid"]:
+    try:
+      plain = tfl.layers.RTL(num_lattices=num, lattice_rank=rank, random_seed=d["seed"],
+                             avoid_intragroup_interaction=False)._get_rtl_structure(make_input(False))
+      swapped = "_swapped" if _structure_plain(plain) != impl else ""
+    except Exception:  # pylint: disable=broad-except
+      pass
+  klass = "rtl_%s_%s_%s_%s%s%s" % (d["form"], groups, slots, "full" if d["full"] else "direct",
+                                   "" if d["avoid"] else "_noavoid", swapped)
   return Case(d, coq=coq, pred_fail=fail, nontrivial=(impl is not None and (num >= 2 or total > n)),
               klass=klass, info={"impl_structure": impl, "impl_call": impl_call, "error": err,
                                  "perm1": p1, "perm2": p2})
 
 
 # --------------------------------------------------------------------------
+# premade_lib ensembles
+# --------------------------------------------------------------------------
+def _names(n, style):
+  if style == "plain":
+    return ["f%d" % i for i in range(n)]
+  # names whose sort order / prefixes differ from their position
+  pool = ["z", "a b", "f10", "f1", "F", "_x", "9", "feature", "y/z", "f", "aa", "a"]
+  return pool[:n]
+
+
+def _ensemble_config(tfl, d, lattices):
+  names = _names(d["n"], d["names"])
+  fcs = [tfl.configs.FeatureConfig(name=x) for x in names]
+  cfg = tfl.configs.CalibratedLatticeEnsembleConfig(
+      feature_configs=fcs, lattices=lattices, num_lattices=d["num"], lattice_rank=d["rank"],
+      random_seed=d["seed"])
+  return cfg, names
+
+
+def gen_random(ctx, count):
+  rng = ctx.rng
+  out = []
+  for _ in range(count):
+    n = rng.randint(1, 9)
+    klass = rng.choice(["valid", "valid", "valid", "valid", "valid", "tight", "tight", "few_slots", "rank_gt_n"])
+    if klass == "rank_gt_n":
+      rank = n + rng.randint(1, 2)
+      num = rng.randint(1, 4)
+    else:
+      rank = rng.randint(1, min(n, 5))
+      need = -(-n // rank)
+      if klass == "tight":
+        num = need
+      elif klass == "few_slots":
+        num = max(0, need - 1)
+      else:
+        num = need + rng.randint(0, 5)
+    out.append(dict(kind="random", n=n, num=num, rank=rank, seed=rng.randint(0, 10 ** 6),
+                    names=rng.choice(["plain", "odd"]), pass_names=rng.random() < 0.5))
+  return out
+
+
+def eval_random(ctx, d):
+  tf, tfl = tfimpl.tfl()
+  from tensorflow_lattice.python import premade_lib  # pylint: disable=g-import-not-at-top
+  n, num, rank = d["n"], d["num"], d["rank"]
+
+  def run(record):
+    cfg, names = _ensemble_config(tfl, d, "random")
+    orig = np.random.choice
+
+    def wrap(a, size=None, replace=True, p=None):
+      r = orig(a, size=size, replace=replace, p=p)
+      record.append((list(a), size, replace, r))
+      return r
+    np.random.choice = wrap
+    try:
+      premade_lib.set_random_lattice_ensemble(cfg, names if d["pass_names"] else None)
+    finally:
+      np.random.choice = orig
+    return cfg, names
+
+  rec = []
+  impl, err, fail = None, None, None
+  try:
+    cfg, names = run(rec)
+    idx = {x: i for i, x in enumerate(names)}
+    impl = [[idx[str(x)] for x in lat] for lat in cfg.lattices]
+  except ValueError as e:
+    err = "ValueError: %s" % str(e)[:100]
+    names = _names(n, d["names"])
+    idx = {x: i for i, x in enumerate(names)}
+  # oracle values + their hypotheses
+  t1, t2 = [], []
+  for a, size, replace, r in rec:
+    if size is None:
+      assert int(r) in [int(v) for v in a], (a, r)
+      t1.append(int(r))
+    else:
+      vals = [idx[str(v)] for v in r]
+      if replace:
+        fail = "np.random.choice called with replace=True for the fill-up of a lattice"
+      else:
+        assert len(vals) == size and len(set(vals)) == len(vals) and set(vals) <= set(idx[str(v)] for v in a)
+      t2.append(vals)
+  valid = (n <= num * rank and rank <= n)
+  if impl is None:
+    if valid:
+      fail = "valid random-ensemble config (n=%d, %d lattices of rank %d) raised %s" % (n, num, rank, err)
+  else:
+    if len(impl) != num:
+      fail = "%d lattices instead of num_lattices=%d" % (len(impl), num)
+    for lat in impl:
+      if len(lat) != rank:
+        fail = fail or "lattice %r has not exactly lattice_rank=%d features" % (lat, rank)
+      if len(set(lat)) != len(lat):
+        fail = fail or "lattice %r repeats a feature" % (lat,)
+    for f in range(n):
+      if not any(f in lat for lat in impl):
+        fail = fail or "feature %d is in no lattice: %r" % (f, impl)
+    if fail is None:
+      cfg2, _ = run([])
+      if [[idx[str(x)] for x in lat] for lat in cfg2.lattices] != impl:
+        fail = "same seed gave two different random ensembles"
+  coq = "CRandom %s %s %s %s %s %s" % (
+      cnat(n), cnat(num), cnat(rank), cnatl(t1), _coq_mat(t2),
+      "None" if impl is None else "(Some %s)" % _coq_mat(impl))
+  klass = "random_%s" % ("rejected" if impl is None else ("tight" if n == num * rank else
+                                                          "full_rank" if rank == n else "valid"))
+  return Case(d, coq=coq, pred_fail=fail, nontrivial=impl is not None and num >= 2, klass=klass,
+              info={"impl_lattices": impl, "error": err, "choices1": t1, "choices2": t2})
+
+
+def gen_cover(ctx, count):
+  rng = ctx.rng
+  out = []
+  for _ in range(count):
+    n = rng.randint(2, 9)
+    if rng.random() < 0.06:
+      rank = n + rng.randint(0, 1)     # rejected: rank must be below the number of features
+    else:
+      rank = rng.randint(2, max(2, min(n - 1, 5)))
+    out.append(dict(kind="cover", n=n, num=rng.randint(1, 4), rank=rank, seed=rng.randint(0, 10 ** 6),
+                    names=rng.choice(["plain", "odd"]), pass_names=rng.random() < 0.5))
+  return out
+
+
+def eval_cover(ctx, d):
+  tf, tfl = tfimpl.tfl()
+  from tensorflow_lattice.python import premade_lib  # pylint: disable=g-import-not-at-top
+  n, rank = d["n"], d["rank"]
+
+  def run():
+    cfg, names = _ensemble_config(tfl, d, "crystals")
+    pre = premade_lib.construct_prefitting_model_config(cfg, names if d["pass_names"] else None)
+    idx = {x: i for i, x in enumerate(names)}
+    return [sorted(idx[x] for x in lat) for lat in pre.lattices], [len(lat) for lat in pre.lattices]
+
+  impl, err, fail = None, None, None
+  try:
+    impl, raw_len = run()
+  except ValueError as e:
+    err = "ValueError: %s" % str(e)[:100]
+  npairs = n * (n - 1) // 2
+  perm = []
+  if impl is None:
+    if n > rank:
+      fail = "valid crystals config (n=%d > rank=%d) rejected: %s" % (n, rank, err)
+  else:
+    np.random.seed(d["seed"])
+    perm = list(range(npairs))
+    np.random.shuffle(perm)
+    assert sorted(perm) == list(range(npairs))
+    for i, j in itertools.combinations(range(n), 2):
+      if not any(i in lat and j in lat for lat in impl):
+        fail = fail or "feature pair (%d, %d) is together in no prefitting lattice: %r" % (i, j, impl)
+    for lat, ln in zip(impl, raw_len):
+      if ln != len(set(lat)) or ln > rank:
+        fail = fail or "prefitting lattice %r has repeats or more than lattice_rank=%d features" % (lat, rank)
+    if fail is None and run()[0] != impl:
+      fail = "same seed gave two different all-pairs covers"
+  coq = "CCover %s %s %s %s" % (cnat(n), cnat(rank), cnatl(perm),
+                                "None" if impl is None else "(Some %s)" % _coq_mat(impl))
+  klass = "cover_%s" % ("rejected" if impl is None else "rank%d" % min(rank, 4))
+  return Case(d, coq=coq, pred_fail=fail, nontrivial=impl is not None and n >= 3, klass=klass,
+              info={"impl_lattices": impl, "error": err, "perm": perm})
+
+
+def _importance(n, T, L):
+  from fractions import Fraction as F
+  imp = [F(L[f]) * 6 for f in range(n)]
+  for a, b in itertools.combinations(range(n), 2):
+    imp[a] += F(T[a][b])
+    imp[b] += F(T[a][b])
+  return imp
+
+
+D13_WITNESS = dict(kind="crystals", n=3, num=2, rank=2, T=[[0, 1, 0], [1, 0, 0], [0, 0, 0]], L=[1, 1, 0],
+                   tclass="zero_feature", seed=0, names="plain", pass_names=True, full=False)
+
+
+def gen_crystals(ctx, count):
+  rng = ctx.rng
+  out = [dict(D13_WITNESS)]
+  while len(out) < count:
+    n = rng.randint(3, 6)
+    rank = rng.randint(2, min(n - 1, 3))
+    need = -(-n // rank)
+    slot = rng.choice(["tight", "plus", "plus", "many", "few"])
+    num = {"tight": need, "plus": need + rng.randint(1, 2), "many": need + rng.randint(3, 5),
+           "few": max(1, need - 1)}[slot]
+    tclass = rng.choice(["dense", "dense", "sparse", "block", "skew", "skew", "zero_feature"])
+    if tclass == "skew" and rng.random() < 0.7:
+      rank = n - 1 if n <= 4 else rank          # many uses per feature: the num_lattices-1 cap binds
+      num = -(-n // rank) + rng.randint(1, 4)
+    T = [[0.0] * n for _ in range(n)]
+    for a, b in itertools.combinations(range(n), 2):
+      if tclass == "dense":
+        v = rng.randint(0, 16) / 8.0
+      elif tclass == "sparse":
+        v = rng.choice([0, 0, 0, 1, 4, 9]) / 8.0
+      elif tclass == "block":
+        v = (rng.randint(8, 16) if (a % 2) == (b % 2) else rng.randint(0, 2)) / 8.0
+      elif tclass == "skew":
+        v = (rng.choice([16, 24, 32]) if 0 in (a, b) else rng.randint(0, 2)) / 8.0
+      else:
+        v = rng.randint(0, 16) / 8.0
+      T[a][b] = T[b][a] = v
+    L = [rng.randint(0, 8) / 8.0 for _ in range(n)]
+    if tclass == "zero_feature":
+      z = rng.randrange(n)
+      L[z] = 0.0
+      for b in range(n):
+        T[z][b] = T[b][z] = 0.0
+      if rng.random() < 0.3:     # all scores zero
+        T = [[0.0] * n for _ in range(n)]
+        L = [0.0] * n
+    imp = _importance(n, T, L)
+    if tclass != "zero_feature" and (len(set(imp)) < n or min(imp) == 0):
+      continue    # np.argsort is not stable: keep the importance order unambiguous
+    out.append(dict(kind="crystals", n=n, num=num, rank=rank, T=T, L=L, tclass=tclass,
+                    seed=rng.randint(0, 10 ** 6), names="plain", pass_names=True,
+                    full=rng.random() < 0.3))
+  return out
+
+
+def crystals_degenerate(d):
+  """Known-finding class D13: some feature has importance score 0."""
+  return d.get("kind") == "crystals" and min(_importance(d["n"], d["T"], d["L"])) == 0
+
+
+def eval_crystals(ctx, d):
+  tf, tfl = tfimpl.tfl()
+  from tensorflow_lattice.python import premade_lib  # pylint: disable=g-import-not-at-top
+  n, num, rank = d["n"], d["num"], d["rank"]
+  T = [[float(v) for v in row] for row in d["T"]]
+  L = [np.float64(v) for v in d["L"]]
+
+  def run():
+    cfg, names = _ensemble_config(tfl, d, "crystals")
+    orig = premade_lib._get_torsions_and_laplacians
+    premade_lib._get_torsions_and_laplacians = lambda **kw: ([list(r) for r in T], list(L))
+    try:
+      with np.errstate(all="ignore"):
+        if d["full"]:
+          keras = premade_lib.keras
+          inputs = [keras.layers.Input(shape=(1,), name="%s_%s" % (premade_lib.INPUT_LAYER_NAME, x))
+                    for x in names]
+          fake = keras.Model(inputs=inputs, outputs=inputs[0])
+          premade_lib.set_crystals_lattice_ensemble(cfg, cfg, fake, None)
+          idx = {x: i for i, x in enumerate(names)}
+          return [[idx[x] for x in lat] for lat in cfg.lattices]
+        return [[int(x) for x in lat] for lat in premade_lib._get_final_crystal_lattices(
+            model_config=cfg, prefitting_model_config=cfg, prefitting_model=None, feature_names=names)]
+    finally:
+      premade_lib._get_torsions_and_laplacians = orig
+
+  impl, err, fail = None, None, None
+  try:
+    impl = run()
+  except (ValueError, OverflowError, AssertionError, IndexError, ZeroDivisionError) as e:
+    err = "%s: %s" % (type(e).__name__, str(e)[:100])
+  valid = n <= num * rank and rank < n
+  if impl is None:
+    if valid:
+      fail = ("_get_final_crystal_lattices raised %s for a valid config (n=%d, %d lattices of rank %d, "
+              "importance %r)" % (err, n, num, rank, [str(v) for v in _importance(n, d["T"], d["L"])]))
+  else:
+    if len(impl) != num:
+      fail = "%d lattices instead of num_lattices=%d" % (len(impl), num)
+    for lat in impl:
+      if len(lat) != rank:
+        fail = fail or "crystals lattice %r has not exactly lattice_rank=%d features" % (lat, rank)
+    for f in range(n):
+      if valid and not any(f in lat for lat in impl):
+        fail = fail or "feature %d is in no crystals lattice: %r" % (f, impl)
+    if fail is None and run() != impl:
+      fail = "same inputs gave two different crystals ensembles"
+  cfg_c = "(mkcr %s %s %s %s %s %s)" % (
+      cnat(n), cnat(num), cnat(rank), cnat(premade_lib._MAX_CRYSTALS_SWAPS),
+      clist([cql(r) for r in d["T"]]), cql(d["L"]))
+  coq = "CCrystals %s %s" % (cfg_c, "None" if impl is None else "(Some %s)" % _coq_mat(impl))
+  klass = "crystals_%s_%s%s" % (d["tclass"], "raised" if impl is None else "ok", "_full" if d["full"] else "")
+  return Case(d, coq=coq, pred_fail=fail, nontrivial=impl is not None, klass=klass,
+              info={"impl_lattices": impl, "error": err})
+
+
+KNOWN_CLASSES = {"crystals_zero_importance_feature": lambda case: crystals_degenerate(case.desc)}
+
+
+# --------------------------------------------------------------------------
 def gen_descs(ctx):
   out = []
   out += gen_rtl(ctx, ctx.n(260, 4000), full_every=ctx.n(6, 8))
+  out += gen_random(ctx, ctx.n(120, 2000))
+  out += gen_cover(ctx, ctx.n(80, 1500))
+  out += gen_crystals(ctx, ctx.n(100, 1500))
   return out
 
 
@@ -301,6 +636,12 @@ def eval_cases(ctx, descs):
     kind = d.get("kind")
     if kind == "rtl":
       cases.append(eval_rtl(ctx, d))
+    elif kind == "random":
+      cases.append(eval_random(ctx, d))
+    elif kind == "cover":
+      cases.append(eval_cover(ctx, d))
+    elif kind == "crystals":
+      cases.append(eval_crystals(ctx, d))
     else:
       raise ValueError("unknown case kind %r" % (kind,))
   return cases
